@@ -231,7 +231,7 @@ pub fn check(ctx: &mut Ctx) {
         rec(&mut idx, l, obs, &mut run);
         fail
     });
-    ctx.random("long-sequences", 160, 600_000, 8_000_000, gen_long, |c, obs| oracle(c, obs, false));
+    ctx.random("long-sequences", 160, 600_000, 30_000_000, gen_long, |c, obs| oracle(c, obs, false));
 }
 
 pub fn replay(_sub: &str, case: &Value, obs: &mut Obs) -> Result<Verdict, String> {
